@@ -26,8 +26,9 @@ Definition join_path (base name : str) : str :=
   | _ => if ends_with [47] base then base ++ name else base ++ [47] ++ name
   end.
 
-(* util::calc_depth *)
-Definition calc_depth (p : str) : N := count_char 47 p.
+(* util::calc_depth: one more than the number of separators, except that the root directory "/"
+   has depth 1 (so "/" is 1, "/usr" is 2, "/usr/lib" is 3) *)
+Definition calc_depth (p : str) : N := if str_eqb p [47] then 1 else count_char 47 p + 1.
 
 (* one output row: the entry's path as fselect prints it, and the archive member (if any) *)
 Definition row := (str * option str)%type.
